@@ -65,7 +65,13 @@ class FnAnalysis:
         self.oks = []           # (rule, node, what)
         self.fan = {}           # (var, version) -> [(node, inloop)]
 
+    _dropped = None
+
     def run(self):
+        self._dropped = set()
+        return self._run()
+
+    def _run(self):
         init = ALL if self.gen_admitted else frozenset({'NONE', 'INT'})
         st = dict(vars={'seed': init}, ver={'seed': 0}, globseed=False,
                   derived={'seed'}, loop=0, loopdef=set())
@@ -161,6 +167,18 @@ class FnAnalysis:
             v = t.args[0].id
             cur = st['vars'][v]
             yes, no = cur & {'GEN'}, cur - {'GEN'}
+            if neg:
+                yes, no = no, yes
+            a['vars'][v], b['vars'][v] = yes, no
+        elif isinstance(t, ast.Call) and U(t.func) == 'isinstance' \
+                and len(t.args) == 2 and isinstance(t.args[0], ast.Name) \
+                and t.args[0].id in st['vars'] and any(
+                    U(x) in ('int', 'np.integer', 'numbers.Integral',
+                             'np.int64', 'np.int32')
+                    for x in ast.walk(t.args[1])):
+            v = t.args[0].id
+            cur = st['vars'][v]
+            yes, no = cur & {'INT'}, cur - {'INT'}
             if neg:
                 yes, no = no, yes
             a['vars'][v], b['vars'][v] = yes, no
@@ -291,6 +309,29 @@ class FnAnalysis:
                 else (frozenset(), False)
             vb, db = self.abstract(v.orelse, b) if self.feasible(b) \
                 else (frozenset(), False)
+            # an arm that answers None although the seed may still be an
+            # integer or a Generator on that arm forgets the seed
+            for arm, stt in ((v.body, a), (v.orelse, b)):
+                if isinstance(arm, ast.Constant) and arm.value is None \
+                        and self.feasible(stt):
+                    for nm in {x.id for x in ast.walk(v.test)
+                               if isinstance(x, ast.Name)}:
+                        cur = stt['vars'].get(nm)
+                        if cur and nm in stt['derived'] and (
+                                cur - {'NONE'}) and ('GEN' not in cur
+                                                     or self.gen_admitted):
+                            key = (id(v), nm)
+                            if key not in self._dropped:
+                                self._dropped.add(key)
+                                self.reports.append((
+                                    'R16.5', v, 'seed dropped %s' % nm,
+                                    '`%s` replaces the seed by None on an '
+                                    'arm where `%s` may still be %s: the '
+                                    'draws that follow are not determined '
+                                    'by the seed (and a Generator handed in '
+                                    'is neither used nor advanced)' % (
+                                        U(v)[:60], nm, ' / '.join(sorted(
+                                            cur - {'NONE'})))))
             if va is None or vb is None:
                 return None, da or db
             return va | vb, da or db
@@ -379,6 +420,9 @@ class FnAnalysis:
             return
         if f in ('np.random.default_rng', 'numpy.random.default_rng'):
             args = list(n.args) + [k.value for k in n.keywords]
+            for a in args:
+                if isinstance(a, ast.IfExp):
+                    self.abstract(a, st)
             if not args or not any(self.is_derived(a, st) for a in args):
                 self.reports.append((
                     'R16.5', n, 'default_rng unseeded',
